@@ -97,7 +97,8 @@ where
     }
     fn get_request_id(&mut self) -> &mut RequestId;
     fn push_pdu(&mut self, pdu: SnmpPdu, buf: &mut Buffer) -> SnmpResult<()>;
-    fn unwrap_pdu<'a>(&'a mut self, msg: Self::Message<'a>) -> Option<SnmpPdu<'a>>;
+    fn unwrap_pdu<'a>(&'a mut self, msg: Self::Message<'a>, raw: &'a [u8])
+    -> Option<SnmpPdu<'a>>;
     //
     fn recv_socket<'a>(io: &mut Socket, buf: &'a mut Buffer) -> SnmpResult<&'a [u8]> {
         #[cfg(gufo_snmp_verif)]
@@ -141,13 +142,13 @@ where
         // We can catch unwanted replies, so do it in a loop
         loop {
             // Nested scope to release io early after receiving message
-            let msg = {
+            let data = {
                 let io = self.get_io();
-                let data = Self::recv_socket(io, buf)?;
-                // Decode message
-                Self::Message::try_from(data)?
+                Self::recv_socket(io, buf)?
             };
-            match self.unwrap_pdu(msg) {
+            // Decode message
+            let msg = Self::Message::try_from(data)?;
+            match self.unwrap_pdu(msg, data) {
                 Some(ref pdu) => {
                     return Python::with_gil(|py| Ok(T::to_python(pdu, iter, py)?.into()));
                 }
